@@ -18,7 +18,7 @@ RULE = ("one case = one PskBundle::new call (validation) or one session whose se
         "distinct (kem, kdf, aead, mode) routing cells")
 ASSUMPTIONS = ["reference model as in C02", "psk != psk_id in every routing session, so a swap is visible"]
 
-LENS = [0, 1, 2, 31, 32, 33, 255, 4096]
+LENS = [0, 1, 2, 31, 32, 33, 255, 4096, 65535, 65536, 70001]
 
 
 def build_validation(env, reps):
@@ -52,6 +52,12 @@ def build_routing(env, per_cell):
             pskid = g.raw(rnd.choice([1, 4, 32, 64]))
             if psk == pskid:
                 pskid += b"\x01"
+            # identifiers / keys with bytes a 'normalising' implementation might touch
+            special = [b"id\n", b"id ", b"id\r\n", b" \t\r\n", b"\n", b"\x00id", b"id\x00", b"\xff\xfe", b"ID", b"id", b"\x0c", b" id", b"\tid\t"]
+            if j % 2 == 1 or per_cell == 1:
+                pskid = special[len(cw.sessions) % len(special)]
+                if rnd.random() < 0.3:
+                    psk = special[(len(cw.sessions) * 7 + 3) % len(special)] + g.raw(2)
             info = g.rbytes(rnd.choice([0, 12]))
             for mode in gen.MODES:
                 pa = dict(psk=psk, pskid=pskid) if mode in (1, 3) else {}
